@@ -29,7 +29,7 @@ FLOORS = {"quick": {"firings_checked": 20000, "calls": 20000, "calls_at_expiry_i
                        "restart_in_callback": 60000, "stop_in_callback": 10000, "scalar_args_cases": 20000,
                        "auto_restart_cases": 30000, "restart_pending": 80000, "restart_after_fired": 10000,
                        "stops": 60000, "suppressed_by_stop": 20000, "old_expiry_voided": 40000}}
-KEYS = tuple(FLOORS["quick"].keys())
+KEYS = tuple(FLOORS["quick"].keys()) + ("falsy_scalar_args_cases",)
 
 
 def plan(tier):
@@ -51,7 +51,7 @@ def gen_case(rng, i):
     tau0 = rng.choice(taus)
     auto = rng.random() < 0.4
     t0 = rng.choice([0, 0, 1, 0.5] if flavour == "exact" else [0, 0.3, 1.1])
-    argform = rng.choice(["scalar", "scalar", "list", "list2", "kwargs", "none"])
+    argform = rng.choice(["scalar", "scalar", "scalar0", "scalar-empty", "scalar-false", "list", "list2", "list0", "kwargs", "none"])
     # predict some expiry instants to aim calls at them
     aims = [t0 + tau0]
     if auto:
@@ -100,6 +100,18 @@ def run_case(case, stats):
     if form == "scalar":
         args, want_args = 7, (7,)
         stats["scalar_args_cases"] += 1
+    elif form == "scalar0":
+        args, want_args = 0, (0,)            # packet id 0 is what the TCP sender arms its first timer with
+        stats["scalar_args_cases"] += 1
+        stats["falsy_scalar_args_cases"] += 1
+    elif form == "scalar-empty":
+        args, want_args = "", ("",)
+        stats["falsy_scalar_args_cases"] += 1
+    elif form == "scalar-false":
+        args, want_args = False, (False,)
+        stats["falsy_scalar_args_cases"] += 1
+    elif form == "list0":
+        args, want_args = [0], (0,)
     elif form == "list":
         args, want_args = [3], (3,)
     elif form == "list2":
